@@ -3,6 +3,7 @@ import NurbsVerif.Lemmas.FitParams
 import NurbsVerif.Lemmas.FitSurf
 import NurbsVerif.Lemmas.FitApprox
 import NurbsVerif.Lemmas.FitApproxEval
+import NurbsVerif.Lemmas.FitApproxOne
 import Mathlib.Algebra.Order.Field.Rat
 
 /-!
@@ -346,6 +347,19 @@ theorem approximateCurve_minimises_evaluated_distinct (p : ℕ) (pts : List (Lis
     lsqErrorEval p (fnOf kv) (computeParams cds) pts d cp
       ≤ lsqErrorEval p (fnOf kv) (computeParams cds) pts d ([pts.headD []] ++ y ++ [pts.getLastD []]) :=
   Geomdl.approximateCurve_minimises_evaluated_distinct p pts cds nc fl kv cp d hfl hp hpn hnc hlen hpos hP h hB y hy hyd
+
+/-- **Least squares, final form** (with C03 `basisFunOne_eq_cdb`): for data with distinct consecutive
+    points, whenever the solver returns, the control polygon returned by `approximate_curve` minimises
+    the summed squared distance `Σ_{k=1}^{nd−2} |Q_k − C(ū_k)|²` between the interior data points and
+    the EVALUATED curve (A3.1) among all polygons `Q₀ :: y ++ [Q_m]` with `nc − 2` interior points. -/
+theorem approximateCurve_least_squares (p : ℕ) (pts : List (List K)) (cds : List K) (nc : ℕ) (fl : K → ℕ)
+    (kv : List K) (cp : List (List K)) (d : ℕ) (hfl : IsFloor fl) (hp : 1 ≤ p) (hpn : p + 1 ≤ nc)
+    (hnc : nc ≤ pts.length) (hlen : cds.length + 1 = pts.length) (hpos : ∀ x ∈ cds, 0 < x)
+    (hP : NetOk d pts) (h : approximateCurve p pts cds nc fl = some (kv, cp))
+    (y : List (List K)) (hy : y.length = nc - 2) (hyd : NetOk d y) :
+    lsqErrorEval p (fnOf kv) (computeParams cds) pts d cp
+      ≤ lsqErrorEval p (fnOf kv) (computeParams cds) pts d ([pts.headD []] ++ y ++ [pts.getLastD []]) :=
+  Geomdl.approximateCurve_least_squares p pts cds nc fl kv cp d hfl hp hpn hnc hlen hpos hP h y hy hyd
 
 /-! ### non-vacuity: the hypotheses hold on concrete inputs (exact rationals) -/
 
